@@ -329,7 +329,7 @@ where
 
         // Monogamy condition: for each node, degree is 0 iff on the interface, else 1.
         // Equivalent to elementwise: degree + interface_count == 1.
-        (in_degrees + in_counts - ones.clone()).zero().len() == ones.len()
-            && (out_degrees + out_counts - ones).zero().len() == self.h.w.len()
+        // (compared directly: subtracting 1 first underflows for nodes with count 0)
+        (in_degrees + in_counts) == ones && (out_degrees + out_counts) == ones
     }
 }
